@@ -41,8 +41,8 @@ def classify(case_line):
 CFG = dict(
     imports=["From Verif.Common Require Import Packet PolicyRef.", "From Verif.C11 Require Import Bpf Model Spec."],
     checker="check_case",
-    n=dict(quick=64, thorough=800),
-    shard=8,
+    n=dict(quick=48, thorough=800),
+    shard=6,
     deps=["Common"],
     rule="generated polprog.Rules: workload / workload+host-* / host-interface / XDP shapes; 0-3 tiers per section with 1-3 policies "
          "of 0-4 rules, end-of-tier deny/pass/undef; 0-3 profiles; SuppressNormalHostPolicy; rules with protocol by number or name, "
@@ -59,6 +59,8 @@ CFG = dict(
          "plus a nested CIDR with another base), and a cidr-stress stream (20% of the plain cases) has rules whose src/dst, positive/negated "
          "CIDR lists are arrangements of that family (narrow-then-broad, broad-then-narrow, duplicates); probes aimed at a CIDR list take "
          "the first / last address of an entry or the address just outside it (inside the broader, outside the narrower entry); "
+         "an emit-fragment stream (22%: only protocol / ICMP / numeric-port criteria, plain build) whose real instruction words must equal, "
+         "word for word, what the Gallina emitters + assembler model of Emit.v produce; "
          "a key-stress stream (20% of the plain cases) has rules doing SEVERAL IP-set-type lookups with the same on-stack key on one leg "
          "(selector set positive/negated or IP+port set, then 0-6 numeric port ranges, then 1-2 named-port sets, positive or negated; src, dst "
          "or both legs), named-port members nested inside the selector sets, and the same rules and probes compiled with three jump limits "
@@ -72,6 +74,8 @@ CFG = dict(
              "map / on the IP-sets LPM map answered from the member table, tail_call)",
              "Common/PolicyRef.v as the meaning of a rule / tier / profile list; Spec.ref_verdict as the way the sections of polprog.Rules combine",
              "Spec.state_bytes: the byte layout of struct cali_tc_state (checked against the C headers by property C13)",
+             "coq/theories/C11/Emit.v (instruction emitters + asm.Block label resolution / dead-code elimination for the lookup-free fragment) "
+             "tied to the code by word-for-word equality with the real builder's output on every case inside the fragment",
              "hand-written IR model coq/theories/C11/Model.v tied to pol_prog_builder.go by this correspondence run (verdict and log flag of every probe)",
              "Go driver harness/C11 (overlay build, tag verif; add-only shim exposing maxJumpsPerProgram and protocolToNumber)"],
     assumptions=["PARTIAL by design: instruction-level equivalence IR -> assembled eBPF is established per generated program by executing the "
